@@ -159,6 +159,8 @@ func (g *DocGen) argVariants(parent, field string) [][]Arg {
 			{{"in", ParseValue("{a:1,d:{}}")}},
 			{{"x", IntV(2)}, {"y", EnumV("A")}},
 			{{"in", ParseValue("{a:1,b:3}")}},
+			{{"in", ParseValue("{a:1,b:[1,$x]}")}},
+			{{"in", ParseValue("{a:2,d:{k:$s}}")}},
 		}
 	}
 	return [][]Arg{nil, {{"x", IntV(1)}}, {{"x", VarV("x")}}}
@@ -281,9 +283,9 @@ func (g *DocGen) node(t string, depth int, prev *tmpl, variant int) (*Sel, *tmpl
 }
 
 var varTypes = map[string]*TypeRef{
-	"v": NonNull(Named("Boolean")), "w": NonNull(Named("Boolean")), "x": Named("Int"), "e": Named("E"), "in": Named("In"),
+	"v": NonNull(Named("Boolean")), "w": NonNull(Named("Boolean")), "x": Named("Int"), "e": Named("E"), "in": Named("In"), "s": Named("String"),
 }
-var varOrder = []string{"v", "w", "x", "e", "in"}
+var varOrder = []string{"v", "w", "x", "e", "in", "s"}
 
 // Query generates one document with a single (possibly named) operation.
 func (g *DocGen) Query() *Doc {
@@ -334,5 +336,6 @@ var VarDomain = map[string][]interface{}{
 	"w":  {true, false},
 	"x":  {nil, 5},
 	"e":  {nil, "B"},
+	"s":  {"sv", nil},
 	"in": {nil, map[string]interface{}{"a": 2}, map[string]interface{}{"a": 3, "b": []interface{}{1, nil}, "d": map[string]interface{}{}}},
 }
